@@ -40,6 +40,8 @@ pub struct Def {
 pub struct DefSpec {
     pub key: &'static str,
     pub issuer: &'static str,
+    /// issuer of the schema (defs A and B share one schema published by alpha)
+    pub schema_issuer: &'static str,
     pub sid: &'static str,
     pub cid: &'static str,
     pub schema_name: &'static str,
@@ -53,13 +55,13 @@ pub const LEGACY_DID: &str = "NcYxiDXkpYi6ov5FcYDi1e";
 pub const LEGACY_DID2: &str = "VsKV7grR1BUE29mG2Fm2kX";
 
 pub const SPECS: &[DefSpec] = &[
-    DefSpec { key: "A", issuer: "did:web:alpha", sid: "did:web:alpha/schema/gvt", cid: "did:web:alpha/creddef/gvt", schema_name: "gvt", schema_version: "1.0", attrs: &["name", "age", "sex", "height"], revocable: false, regs: &[] },
-    DefSpec { key: "B", issuer: "did:web:beta", sid: "did:web:alpha/schema/gvt", cid: "did:web:beta/creddef/gvt", schema_name: "gvt", schema_version: "1.0", attrs: &["name", "age", "sex", "height"], revocable: false, regs: &[] },
-    DefSpec { key: "C", issuer: "did:web:gamma", sid: "did:web:gamma/schema/degree", cid: "did:web:gamma/creddef/degree", schema_name: "degree", schema_version: "2.1", attrs: &["Degree", "Given Name", "year", "GPA Score"], revocable: false, regs: &[] },
-    DefSpec { key: "L", issuer: LEGACY_DID, sid: "NcYxiDXkpYi6ov5FcYDi1e:2:gvt:1.0", cid: "NcYxiDXkpYi6ov5FcYDi1e:3:CL:NcYxiDXkpYi6ov5FcYDi1e:2:gvt:1.0:tag", schema_name: "gvt", schema_version: "1.0", attrs: &["name", "age", "sex", "height"], revocable: false, regs: &[] },
-    DefSpec { key: "R", issuer: "did:web:rho", sid: "did:web:rho/schema/emp", cid: "did:web:rho/creddef/emp", schema_name: "emp", schema_version: "1.0", attrs: &["name", "age", "dept"], revocable: true,
+    DefSpec { key: "A", issuer: "did:web:alpha", schema_issuer: "did:web:alpha", sid: "did:web:alpha/schema/gvt", cid: "did:web:alpha/creddef/gvt", schema_name: "gvt", schema_version: "1.0", attrs: &["name", "age", "sex", "height"], revocable: false, regs: &[] },
+    DefSpec { key: "B", issuer: "did:web:beta", schema_issuer: "did:web:alpha", sid: "did:web:alpha/schema/gvt", cid: "did:web:beta/creddef/gvt", schema_name: "gvt", schema_version: "1.0", attrs: &["name", "age", "sex", "height"], revocable: false, regs: &[] },
+    DefSpec { key: "C", issuer: "did:web:gamma", schema_issuer: "did:web:gamma", sid: "did:web:gamma/schema/degree", cid: "did:web:gamma/creddef/degree", schema_name: "degree", schema_version: "2.1", attrs: &["Degree", "Given Name", "year", "GPA Score"], revocable: false, regs: &[] },
+    DefSpec { key: "L", issuer: LEGACY_DID, schema_issuer: LEGACY_DID, sid: "NcYxiDXkpYi6ov5FcYDi1e:2:gvt:1.0", cid: "NcYxiDXkpYi6ov5FcYDi1e:3:CL:NcYxiDXkpYi6ov5FcYDi1e:2:gvt:1.0:tag", schema_name: "gvt", schema_version: "1.0", attrs: &["name", "age", "sex", "height"], revocable: false, regs: &[] },
+    DefSpec { key: "R", issuer: "did:web:rho", schema_issuer: "did:web:rho", sid: "did:web:rho/schema/emp", cid: "did:web:rho/creddef/emp", schema_name: "emp", schema_version: "1.0", attrs: &["name", "age", "dept"], revocable: true,
         regs: &[("did:web:rho/revreg/emp/1", 6), ("did:web:rho/revreg/emp/2", 6)] },
-    DefSpec { key: "S", issuer: LEGACY_DID2, sid: "VsKV7grR1BUE29mG2Fm2kX:2:emp:1.0", cid: "VsKV7grR1BUE29mG2Fm2kX:3:CL:VsKV7grR1BUE29mG2Fm2kX:2:emp:1.0:tag", schema_name: "emp", schema_version: "1.0", attrs: &["name", "age", "dept"], revocable: true,
+    DefSpec { key: "S", issuer: LEGACY_DID2, schema_issuer: LEGACY_DID2, sid: "VsKV7grR1BUE29mG2Fm2kX:2:emp:1.0", cid: "VsKV7grR1BUE29mG2Fm2kX:3:CL:VsKV7grR1BUE29mG2Fm2kX:2:emp:1.0:tag", schema_name: "emp", schema_version: "1.0", attrs: &["name", "age", "dept"], revocable: true,
         regs: &[("VsKV7grR1BUE29mG2Fm2kX:4:VsKV7grR1BUE29mG2Fm2kX:3:CL:VsKV7grR1BUE29mG2Fm2kX:2:emp:1.0:tag:CL_ACCUM:r1", 5)] },
 ];
 
@@ -67,7 +69,7 @@ fn make_def(spec: &DefSpec) -> Def {
     let issuer = IssuerId::new(spec.issuer).unwrap();
     let sid = SchemaId::new(spec.sid).unwrap();
     let cid = CredentialDefinitionId::new(spec.cid).unwrap();
-    let schema = issuer::create_schema(spec.schema_name, spec.schema_version, issuer.clone(), spec.attrs.into()).unwrap();
+    let schema = issuer::create_schema(spec.schema_name, spec.schema_version, IssuerId::new(spec.schema_issuer).unwrap(), spec.attrs.into()).unwrap();
     let (cd, cdp, kcp) = issuer::create_credential_definition(
         sid.clone(),
         &schema,
@@ -108,7 +110,7 @@ impl World {
 
     /// load the cached pool, regenerate it when absent, stale or unusable on the current tree
     pub fn load() -> World {
-        let path = format!("{POOL_DIR}/pool.json");
+        let path = format!("{POOL_DIR}/pool-v2.json");
         if let Ok(txt) = std::fs::read_to_string(&path) {
             if let Ok(defs) = serde_json::from_str::<Vec<Def>>(&txt) {
                 let w = World { defs };
